@@ -615,7 +615,11 @@ def check_property(prop, units, tier, seed, *, explanation, assumptions, stubs=(
     if canaries is not None:
         can = canaries()
         for c in can:
-            if not c["detected"]:
+            if c.get("stale"):
+                # the textual mutation no longer matches the source (the code it targets was changed): it says nothing about the
+                # harness either way; recorded in the evidence, not an alarm
+                print("NOTE: canary %r does not apply to the current source text (skipped)" % c["name"], file=sys.stderr)
+            elif not c["detected"]:
                 out.harness_errors.append("canary %r not detected - the harness is too weak to believe" % c["name"])
 
     wall = time.time() - t0
@@ -673,8 +677,13 @@ def run_canaries(build, canaries, seed=0):
     out = []
     for name, mutate, unit_filter in canaries:
         t = time.time()
+        applied = []
+        mutate = {k: (lambda src, f=f: (lambda r: (applied.append(r != src), r)[1])(f(src))) for k, f in mutate.items()}
         try:
             units = [u for u in build(mutate) if unit_filter is None or unit_filter(u.name)]
+            if not _b.any(applied):
+                out.append({"name": name, "detected": False, "stale": True, "wall_s": 0.0, "errors": ["the textual mutation does not match the current source"]})
+                continue
             agg = explore_units(units, seed=seed)
             det = False
             errs = []
@@ -687,4 +696,6 @@ def run_canaries(build, canaries, seed=0):
         except Exception as e:
             out.append({"name": name, "detected": False, "wall_s": round(time.time() - t, 1),
                         "errors": ["%s: %s" % (type(e).__name__, e)]})
+            if "canary transform did not change" in _b.str(e):
+                out[-1]["stale"] = True  # the loader refuses a textual mutation that does not match the source
     return out
